@@ -182,13 +182,49 @@ fn check(t: &Ty, tags: &[(u64, u8)], body: &[u8], ctx: &mut Ctx) -> CaseResult {
     Ok(())
 }
 
-fn exh_sizes() -> [u64; 3] {
+/// Total encoded lengths of the untagged body around which the tagged / untagged correspondence is
+/// probed (a size limit applied to one form and not, or differently, to the other shows only there).
+const LENGTHS: [usize; 4] = [1 << 8, 1 << 16, 1 << 20, 1 << 24];
+const DELTAS: [i64; 7] = [-3, -2, -1, 0, 1, 2, 3];
+
+/// A valid body of `kind` whose untagged encoding is exactly `total` bytes long (the payload /
+/// ciphertext byte string takes up the slack).
+fn body_of_length(kind: Kind, total: usize) -> Option<Vec<u8>> {
+    let make = |p: usize| -> Vec<u8> {
+        let content = Item::Bytes(vec![0x5a; p]);
+        let prot = crate::cbor::Wrapped::new(Item::Map(vec![(Item::Int(1), Item::Int(-7))]));
+        let mut v = vec![prot, Item::Map(vec![(Item::Int(4), Item::Bytes(vec![0x31]))]), content];
+        match kind {
+            Kind::Sign1 | Kind::Mac0 => v.push(Item::Bytes(vec![0x51])),
+            Kind::Sign => v.push(Item::Array(vec![Item::Array(vec![Item::Bytes(vec![]), Item::Map(vec![]), Item::Bytes(vec![0x52])])])),
+            Kind::Mac => {
+                v.push(Item::Bytes(vec![0x51]));
+                v.push(Item::Array(vec![Item::Array(vec![Item::Bytes(vec![]), Item::Map(vec![]), Item::Null])]));
+            }
+            Kind::Encrypt => v.push(Item::Array(vec![Item::Array(vec![Item::Bytes(vec![]), Item::Map(vec![]), Item::Null])])),
+            _ => {}
+        }
+        encode(&Item::Array(v))
+    };
+    let base = make(0).len();
+    let mut p = total.checked_sub(base)?;
+    for _ in 0..4 {
+        let len = make(p).len();
+        if len == total {
+            return Some(make(p));
+        }
+        p = (p + total).checked_sub(len)?;
+    }
+    None
+}
+
+fn exh_sizes() -> [u64; 4] {
     let nt = types().len() as u64;
     let np = palette().len() as u64;
     let ntag = TAGS.len() as u64;
     let nall = tags_all().len() as u64;
     let nw = WIDTHS.len() as u64;
-    [nt * np * nall * nw, nt * np * ntag * ntag, nt * np]
+    [nt * np * nall * nw, nt * np * ntag * ntag, nt * np, nt * (LENGTHS.len() * DELTAS.len()) as u64]
 }
 
 fn exh_count(_t: Tier) -> u64 {
@@ -198,6 +234,21 @@ fn exh_count(_t: Tier) -> u64 {
 fn exh_case(idx: u64, ctx: &mut Ctx) -> CaseResult {
     let (seg, mut i) = segment(idx, &exh_sizes()).ok_or("index out of range")?;
     let nt = types().len() as u64;
+    if seg == 3 {
+        let t = &types()[(i % nt) as usize];
+        i /= nt;
+        let total = (LENGTHS[(i as usize) / DELTAS.len()] as i64 + DELTAS[(i as usize) % DELTAS.len()]) as usize;
+        let body = match body_of_length(t.kind, total) {
+            Some(b) => b,
+            None => return Ok(()),
+        };
+        ctx.classf(format!("exh:total-length:2^{}", (total + 4).ilog2()));
+        for w in [min_width(t.tag), 2, 8] {
+            check(t, &[(t.tag, w)], &body, ctx)?;
+        }
+        check(t, &[(if t.tag == 18 { 17 } else { 18 }, 0)], &body, ctx)?;
+        return check(t, &[], &body, ctx);
+    }
     let np = palette().len() as u64;
     let ntag = TAGS.len() as u64;
     let nw = WIDTHS.len() as u64;
